@@ -12,10 +12,52 @@ from leanfmt import lean_list, lean_str
 ID = "C08"
 LEAN_MODULES = ["EzdxfVerif.Props.C08"]
 DRIVER_DEPS = ["EzdxfVerif.Model.Readers", "EzdxfVerif.Gen.ReaderTables", "Drivers.Proto"]
-RULE = "see below"
-TRUSTED_BASE = []
-ASSUMPTIONS = []
-OPEN = []
+RULE = (
+    "correspondence (real code vs Lean model, one line protocol driver): X1 2500/40000 generated ASCII tag streams "
+    "(well-formed 60 %, else a structural fault: missing/duplicate/shuffled sections, dropped SECTION/ENDSEC/EOF/name tags, "
+    "padded or lower-case structure tags, 999 comments, entities outside sections or behind EOF, tags in front of the "
+    "first entity, group codes > 1071, header variables without value; paperspace flags; POLYLINE/INSERT structures "
+    "complete, open, with wrong or unsupported entities inside) through the five real readers (ezdxf.read, the recover "
+    "front end, iterdxf.modelspace, single_pass_modelspace, opendxf().modelspace()) vs the five reader models: result = "
+    "type, handle, linked sub-entity handles and SEQEND per modelspace entity, or the exception class; X2 JSONTagWriter / "
+    "json_tag_loader / TagWriter+ascii_tags_loader on random compiled tag lists vs jsonWrite/jsonLoad/asciiLoad; X3 the tag "
+    "stream of random r12writer call sequences (all add_* methods, fixed tables or not) vs r12File; X4 the group "
+    "structure of files written by the real iterdxf exporter vs exportFile; X5 the model's decidable FileWF' evaluated "
+    "on real Drawing.write output of generated documents (all 7 versions). non-trivial = a non-empty result or an "
+    "error; distinct by hash of the request. oracle (real code only): O1 generated documents (API histories of "
+    "gen/dochist.gen_rich and a many-entity-type generator with code page / UTF-8 text, special characters and "
+    "extreme coordinates, 7 DXF versions, 14 code pages) written by Drawing.write ASCII (LF and CRLF), binary, JSON "
+    "tags (compact, verbose), the iterdxf exporter and r12export, each output read by every reader of its format "
+    "(ezdxf.readfile, ezdxf.read, recover.readfile, recover.read, load_json_tags, iterdxf.modelspace, "
+    "single_pass_modelspace, opendxf().modelspace()): snapshots (type, order, every existing DXF attribute, exported "
+    "content tags, linked sub-entities) compared pairwise for exact equality and with the source document; the written "
+    "files are checked for well-formedness by the harness-owned parser; O2 r12writer call sequences (ASCII and binary) "
+    "read by every reader and compared with the input rounded to 6 decimals (Decimal, half-even, exact binary value)."
+)
+TRUSTED_BASE = [
+    "tag level model: values are strings as the low level loaders deliver them; text decoding (C09), value typing and point "
+    "compilation (C03) and the attribute loading of factory.load (C01) are outside the model",
+    "Cfg abstracts what the readers take from a loaded entity (paperspace flag, owner priority, attribs_follow, bool(entity)); "
+    "the driver instantiates it by the first 67/330/66 tag of the entity",
+    "harness/dxfparse.py (independent ASCII DXF reader) for the structure correspondences X3-X5 and the oracle's file check",
+    "CPython: readline()/universal newlines, json.loads, Decimal.quantize as the reference for round(x, 6)",
+]
+ASSUMPTIONS = [
+    "generated values contain no line breaks (a string value with CR/LF is not a valid DXF value: C04/C09)",
+    "r12writer: line types / text styles other than the defaults only together with fixed_tables=True (otherwise recover's "
+    "audit resets the undefined references, which is its job)",
+    "the recover model covers the front end (sections, ENTITIES grouping, linking); the audit that follows in recover.read is "
+    "exercised by the oracle only",
+]
+OPEN = [
+    "readers_agree needs every modelspace entity to be truthy and single_pass with the ENDSEC fix: on the unchanged tree the "
+    "proved statements are single_pass_current (the last group of the section is lost) and iter_agrees/index_agrees (falsy "
+    "entities are filtered); counterexample theorems single_pass_loses_last_entity, falsy_entity_dropped, export_duplicates_subs",
+    "writers_wf (FileWF' of Drawing.write output) is checked on real files by correspondence X5, proved only for the "
+    "r12writer (r12_structure) and the patched iterdxf exporter (export_structure)",
+    "binary DXF and JSON files reach the strict reader through other tag loaders: their tag-level equality with the ASCII "
+    "loader is C03's theorem set plus json_roundtrip here; format/encoding detection (dxf_info) is oracle-only",
+]
 
 SRCS = [
     "src/ezdxf/addons/iterdxf.py", "src/ezdxf/lldxf/fileindex.py", "src/ezdxf/lldxf/loader.py", "src/ezdxf/lldxf/tagger.py",
@@ -35,6 +77,20 @@ def _probe_single_pass_flush() -> bool:
     if n not in (0, 1):
         raise ValueError("single_pass_modelspace probe: unexpected entity count %d" % n)
     return n == 1
+
+
+def _probe_yields_falsy(tmp: str) -> bool:
+    """does iterdxf.modelspace deliver a POLYLINE without vertices (an entity with bool(entity) == False)?"""
+    from ezdxf.addons import iterdxf
+
+    p = os.path.join(tmp, "probe2.dxf")
+    with open(p, "wb") as fp:
+        fp.write(b"0\nSECTION\n2\nENTITIES\n0\nPOLYLINE\n8\n0\n66\n1\n10\n0\n20\n0\n30\n0\n70\n0\n0\nSEQEND\n8\n0\n"
+                 b"0\nLINE\n8\n0\n10\n0\n20\n0\n11\n1\n21\n1\n0\nENDSEC\n0\nEOF\n")
+    types = [e.dxftype() for e in iterdxf.modelspace(p)]
+    if types not in (["LINE"], ["POLYLINE", "LINE"]):
+        raise ValueError("iterdxf.modelspace probe: unexpected result %r" % types)
+    return len(types) == 2
 
 
 def _probe_max_code(tmp: str) -> int:
@@ -82,6 +138,7 @@ def regenerate(ctx):
             raise ValueError("str.strip() strips U+%04X which is not isspace()" % o)
     flush = _probe_single_pass_flush()
     maxcode = _probe_max_code(str(ctx.scratch))
+    falsy = _probe_yields_falsy(str(ctx.scratch))
     text = f"""
 namespace EzdxfVerif.Gen.ReaderTables
 
@@ -108,6 +165,9 @@ def maxGroupCode : Nat := {maxcode}
 
 /-- probe of iterdxf.single_pass_modelspace on a one-entity file: is the last entity of the section delivered? -/
 def singlePassFlush : Bool := {"true" if flush else "false"}
+
+/-- probe of iterdxf.modelspace on a file with a POLYLINE without vertices: is an entity with bool(entity) == False delivered? -/
+def iterdxfYieldsFalsy : Bool := {"true" if falsy else "false"}
 
 /-- r12writer.rnd = partial(round, ndigits=...) -/
 def r12Digits : Nat := {r12writer.rnd.keywords["ndigits"]}
@@ -396,20 +456,23 @@ def gen_stream(rng):
     if faulty:
         x = r.random()
         if x < 0.10:
-            i = r.choice([i for i, t in enumerate(tags) if t == E])
-            del tags[i]
-            kinds.append("drop-endsec")
+            cand = [i for i, t in enumerate(tags) if t == E]
+            if cand:
+                del tags[r.choice(cand)]
+                kinds.append("drop-endsec")
         elif x < 0.18:
             tags.pop()
             kinds.append("drop-eof")
         elif x < 0.26:
-            i = r.choice([i for i, t in enumerate(tags) if t == S])
-            del tags[i]
-            kinds.append("drop-section")
+            cand = [i for i, t in enumerate(tags) if t == S]
+            if cand:
+                del tags[r.choice(cand)]
+                kinds.append("drop-section")
         elif x < 0.34:
-            i = r.choice([i for i, t in enumerate(tags) if t[0] == 2 and i > 0 and tags[i - 1] == S])
-            del tags[i]
-            kinds.append("drop-name")
+            cand = [i for i, t in enumerate(tags) if t[0] == 2 and i > 0 and tags[i - 1] == S]
+            if cand:
+                del tags[r.choice(cand)]
+                kinds.append("drop-name")
         elif x < 0.44:
             i = r.choice([i for i, t in enumerate(tags) if t in (S, E, EOF_T)] )
             pad = r.choice([" %s", "%s ", "\t%s", "%s \x0c", "%s\x1f", "\x1c%s"])
@@ -485,7 +548,246 @@ def correspond(ctx):
             cases.append((f"rd|{rd}|-|-|{line}", impl, impl != "ok "))
     if outside * 20 > len(cases):
         ctx.note(f"X1: {outside} reader runs raised an exception class outside the model")
-    ctx.correspond("X1 readers", "C08", cases, build=DRIVER_DEPS)
+    allcases = [("X1 readers", c) for c in cases]
+    allcases += [("X2 json tags", c) for c in correspond_json(ctx)]
+    allcases += [("X3 r12writer structure", c) for c in correspond_r12(ctx)]
+    allcases += [("X4 exporter structure", c) for c in correspond_export(ctx, results)]
+    allcases += [("X5 writers_wf", c) for c in correspond_wf(ctx)]
+    # one driver run for all streams
+    outs = ctx.driver("C08", [c[0] for _, c in allcases], build=DRIVER_DEPS)
+    for (stream, (req, impl, nontriv)), model in zip(allcases, outs):
+        ctx.count(stream, req, nontriv, sample={"request": req[:300], "impl": impl[:300], "model": model[:300]})
+        if impl != model:
+            ctx.disagree(stream, req, impl, model)
+    ctx.cov["disagreements_checked"] += len(allcases)
+
+
+# ------------------------------------------------------------------ X2 JSON tags
+def _wtag_line(w):
+    if w[0] == "s":
+        return f"s,{w[1]},{esc(w[2])}"
+    return f"v,{w[1]}," + " ".join(esc(x) for x in w[2])
+
+
+def correspond_json(ctx):
+    import json
+
+    from ezdxf.lldxf.tagger import ascii_tags_loader, json_tag_loader
+    from ezdxf.lldxf.tagwriter import JSONTagWriter, TagWriter
+    from ezdxf.lldxf.types import POINT_CODES, DXFTag, DXFVertex
+
+    rng = ctx.rng("json")
+    cases = []
+    pts = sorted(POINT_CODES)
+    for i in range(ctx.n(600, 6000)):
+        # writer: compiled tags, EOF only at the end (the JSON writer closes the list there)
+        ws, real = [], []
+        for _ in range(rng.randint(0, 12)):
+            x = rng.random()
+            if x < 0.3:
+                c = rng.choice(pts)
+                xs = [rng.choice([0.0, 1.5, -2.25, 1e-9, 123456.789]) for _ in range(rng.choice([2, 3]))]
+                ws.append(("v", c, [str(v) for v in xs]))
+                real.append(DXFVertex(c, tuple(xs)))
+            elif x < 0.5:
+                c = rng.choice([70, 90, 62, 280])
+                v = rng.randint(-5, 300)
+                ws.append(("s", c, str(v)))
+                real.append(DXFTag(c, v))
+            elif x < 0.65:
+                c = rng.choice([40, 50, 140])
+                v = rng.choice([0.0, 2.5, -1e-7, 1e20])
+                ws.append(("s", c, str(v)))
+                real.append(DXFTag(c, v))
+            elif x < 0.75:
+                ws.append(("s", 999, "comment"))
+                real.append(DXFTag(999, "comment"))
+            else:
+                c = rng.choice([0, 1, 2, 5, 8, 100, 1000])
+                v = rng.choice(["LINE", "SECTION", 'q"uote', "back\\slash", "äΩ", "", " pad ", "A1", "tab\tx"])
+                ws.append(("s", c, v))
+                real.append(DXFTag(c, v))
+        ws.append(("s", 0, "EOF"))
+        real.append(DXFTag(0, "EOF"))
+        compact = i % 2 == 0
+        out = io.StringIO()
+        w = JSONTagWriter(out, compact=compact)
+        for t in real[:-1]:
+            w.write_tag(t)
+        w.write_tag2(0, "EOF")
+        data = json.loads(out.getvalue())
+        pairs = []
+        for c, v in data:
+            pairs.append(f"v,{c}," + " ".join(esc(str(x)) for x in v) if isinstance(v, list) else f"s,{c},{esc(str(v))}")
+        loaded = ";".join(f"{t.code},{esc(str(t.value))}" for t in json_tag_loader(data))
+        a = io.StringIO()
+        tw = TagWriter(a)
+        for t in real:
+            tw.write_tag(t)
+        a.seek(0)
+        asc = ";".join(f"{t.code},{esc(str(t.value))}" for t in ascii_tags_loader(a))
+        impl = ";".join(pairs) + "|" + loaded + "|" + asc
+        cases.append((f"jw|{int(compact)}|" + ";".join(_wtag_line(x) for x in ws), impl, len(ws) > 1))
+    for i in range(ctx.n(400, 4000)):
+        # loader alone: EOF and comments anywhere, coordinate lists under point and non point codes
+        js, data = [], []
+        for _ in range(rng.randint(0, 10)):
+            x = rng.random()
+            if x < 0.3:
+                c = rng.choice(pts)
+                xs = [rng.choice([0.0, 1.5, -2.25]) for _ in range(rng.choice([0, 1, 2, 3]))]
+                js.append(f"v,{c}," + " ".join(esc(str(v)) for v in xs))
+                data.append([c, xs])
+            elif x < 0.4:
+                js.append("s,0,EOF")
+                data.append([0, "EOF"])
+            elif x < 0.55:
+                js.append("s,999,c")
+                data.append([999, "c"])
+            else:
+                c = rng.choice([0, 1, 8, 70, 10, 20])
+                v = rng.choice(["LINE", "x", "1", "EOF"])
+                js.append(f"s,{c},{esc(v)}")
+                data.append([c, v])
+        impl = ";".join(f"{t.code},{esc(str(t.value))}" for t in json_tag_loader(data))
+        cases.append(("jl|" + ";".join(js), impl, bool(js)))
+    return cases
+
+
+# ------------------------------------------------------------------ X3 r12writer tag structure
+def correspond_r12(ctx):
+    import dxfparse
+    from ezdxf.addons.r12writer import r12writer
+
+    rng = ctx.rng("r12corr")
+    cases = []
+    for i in range(ctx.n(300, 3000)):
+        fixed = i % 4 == 0
+        calls = gen_r12_calls(rng, fixed)
+        out = io.StringIO()
+        with r12writer(out, fixed_tables=fixed) as w:
+            for name, kw, _ in calls:
+                getattr(w, name)(**kw)
+        tags = dxfparse.parse_ascii(out.getvalue())
+        k = next(j for j, t in enumerate(tags) if t == (2, "ENTITIES")) - 1
+        pre, body = tags[:k], tags[k + 2:-2]
+        groups = dxfparse.records(body)
+        enc, pos = [], 0
+        for name, kw, exp in calls:
+            if exp[2] is None:
+                g = groups[pos]
+                pos += 1
+                enc.append("S~" + esc(g[0][1]) + "~" + tags_line(g[1:]))
+            else:
+                n = len(exp[2])
+                g = groups[pos]
+                vs = groups[pos + 1: pos + 1 + n]
+                assert groups[pos + 1 + n] == [(0, "SEQEND")], groups[pos + 1 + n]
+                pos += n + 2
+                enc.append("P~" + tags_line(g[1:]) + "".join("~" + tags_line(v[1:]) for v in vs))
+        assert pos == len(groups)
+        cases.append((f"r12|{tags_line(pre)}|" + "!".join(enc), tags_line(tags), True))
+        ctx.hist("X3 r12writer structure", "fixed_tables" if fixed else "plain")
+    return cases
+
+
+# ------------------------------------------------------------------ X4 iterdxf exporter tag structure
+def _export_case(args):
+    tags, path = args
+    _quiet()
+    import dxfparse
+    from ezdxf.addons import iterdxf
+
+    src = path + "-s.dxf"
+    dst = path + "-d.dxf"
+    with open(src, "wb") as fp:
+        fp.write(file_text(tags).encode("utf8"))
+    ex = None
+    try:
+        it = iterdxf.opendxf(src)
+        try:
+            ex = it.export(dst)
+            for e in it.modelspace():
+                ex.write(e)
+            ex.close()
+        finally:
+            it.close()
+            if ex is not None and not ex.file.closed:
+                ex.file.close()
+    except Exception as e:  # noqa
+        return "err:" + type(e).__name__
+    with open(dst, "rb") as fp:
+        text = fp.read().decode("utf8").replace("\r\n", "\n")
+    out = []
+    for r in dxfparse.records(dxfparse.parse_ascii(text)):
+        h = next((v for c, v in r[1:] if c == 5), "-")
+        out.append(esc(r[0][1]) + ":" + esc(h))
+    return ";".join(out)
+
+
+def correspond_export(ctx, reader_results):
+    from ezdxf.addons import iterdxf
+
+    # current behaviour of the exporter (probe): are sub-entities written twice?
+    dup = _export_case(([S, (2, "ENTITIES"), (0, "POLYLINE"), (5, "A1"), (8, "0"), (66, "1"), (10, "0"), (20, "0"), (30, "0"),
+                         (0, "VERTEX"), (5, "A2"), (8, "0"), (10, "0"), (20, "0"), (30, "0"), (0, "SEQEND"), (5, "A3"), (8, "0"),
+                         E, EOF_T], os.path.join(str(ctx.scratch), "xp"))).count("VERTEX") == 2
+    cases = []
+    todo = []
+    for kind, tags, res in reader_results:
+        if kind != "wellformed" or res["idx"].startswith("err"):
+            continue
+        ver = next((tags[j + 1][1] for j, t in enumerate(tags[:-1]) if t == (9, "$ACADVER")), "AC1009")
+        todo.append((tags, ver))
+        if len(todo) >= ctx.n(300, 3000):
+            break
+    for i, (tags, ver) in enumerate(todo):
+        impl = _export_case((tags, os.path.join(str(ctx.scratch), "x%d" % (i % 8))))
+        if impl.startswith("err:"):
+            ctx.hist("X4 exporter structure", impl)
+            continue
+        cases.append((f"ex|{int(dup)}|{int(ver <= 'AC1009')}|{tags_line(tags)}", impl, "POLYLINE" in impl or "INSERT" in impl))
+    ctx.hist("X4 exporter structure", "writes-sub-entities-twice" if dup else "writes-sub-entities-once")
+    return cases
+
+
+# ------------------------------------------------------------------ X5 writers_wf: FileWF' of the model on real written files
+def _wf_case(args):
+    seed, idx = args
+    _quiet()
+    import dxfparse
+
+    signal.signal(signal.SIGALRM, _on_alarm)
+    rng = random.Random(f"{seed}/wf/{idx}")
+    vname = list(VERSIONS)[idx % 7]
+    try:
+        signal.alarm(30)
+        doc, made = build_document(rng, vname, rng.choice(list(CODEPAGES)), False)
+        out = io.StringIO()
+        doc.write(out)
+    except _Timeout:
+        return None
+    finally:
+        signal.alarm(0)
+    tags = dxfparse.parse_ascii(out.getvalue())
+    msp = doc.modelspace().layout_key
+    psp = doc.paperspace().layout_key
+    return vname, [m[0] for m in made], f"wf|{msp}|{psp}|{tags_line(tags)}"
+
+
+def correspond_wf(ctx):
+    """`writers_wf` on the real code: the decidable FileWF' of the Lean model holds for what Drawing.write produces"""
+    n = ctx.n(42, 700)
+    with _pool(8) as pool:
+        results = pool.map(_wf_case, [(ctx.seed, i) for i in range(n)], chunksize=2)
+    cases = []
+    for r in results:
+        if r is None:
+            continue
+        vname, kinds, line = r
+        ctx.hist("X5 writers_wf", vname)
+        cases.append((line, "1", True))
+    return cases
 
 
 # =========================================================================================== oracle on the real code
@@ -642,7 +944,10 @@ def build_document(rng, version_name, enc, unencodable=False):
             elif kind == "mtextlong":
                 e = lay.add_mtext((S() + " ") * 120, dxfattribs=attribs)
             elif kind == "ellipse":
-                e = lay.add_ellipse(_pt(rng), major_axis=(abs(_num(rng)) + 1, _num(rng), 0), ratio=0.5, dxfattribs=attribs)
+                # moderate size: r12export flattens ellipses (C14's subject)
+                e = lay.add_ellipse((rng.uniform(-500, 500), rng.uniform(-500, 500), rng.choice([0.0, 2.5])),
+                                    major_axis=(rng.uniform(1, 50), rng.uniform(-20, 20), 0), ratio=rng.choice([0.5, 0.25, 1.0]),
+                                    dxfattribs=attribs)
             elif kind == "spline":
                 # fit points of moderate size (the CAD fit point interpolation is C13's subject)
                 mp = lambda: (rng.uniform(-100, 100), rng.uniform(-100, 100), rng.choice([0.0, 1.5]))  # noqa: E731
@@ -781,6 +1086,12 @@ def diff(a, b):
     return None
 
 
+def _decoded(x: str) -> str:
+    from ezdxf.lldxf.encoding import decode_dxf_unicode, has_dxf_unicode
+
+    return decode_dxf_unicode(x) if has_dxf_unicode(x) else x
+
+
 def _same(a, b) -> bool:
     """attribute values of source and reader: numbers by value (1.0 == 1, -0.0 == 0), the rest canonically"""
     if isinstance(a, (int, float)) and isinstance(b, (int, float)) and not isinstance(a, bool) and not isinstance(b, bool):
@@ -804,11 +1115,17 @@ def source_diff(src_entities, got_entities, with_handle=True):
         for k, v in s.dxf.all_existing_dxf_attribs().items():
             if k in DROP_ATTRIBS or (k == "handle" and not with_handle):
                 continue
+            if k == "attribs_follow":
+                continue     # derived from the attached ATTRIBs at export
             try:
                 gv = g.dxf.get(k, g.dxf.dxf_default_value(k))
             except Exception:  # noqa
                 gv = g.dxf.get(k)
+            if gv is None:
+                continue     # not exported for this DXF version / default elided (C01, C04)
             if not _same(v, gv):
+                if isinstance(v, str) and isinstance(gv, str) and _decoded(gv) == v:
+                    return "dxf-unicode", f"#{i} {s.dxftype()}.{k}: source {v!r} reader {gv!r}"
                 return "attrib:" + k, f"#{i} {s.dxftype()}.{k}: source {v!r} reader {gv!r}"
         ss, gs = getattr(s, "_sub_entities", []), getattr(g, "_sub_entities", [])
         d = source_diff(list(ss), list(gs), with_handle)
@@ -887,17 +1204,27 @@ ITER_READERS = ("iterdxf.modelspace", "iterdxf.single_pass_modelspace", "iterdxf
 
 
 def _unicode_only(ref, got) -> bool:
-    """the two snapshot lists differ only by `\\U+XXXX` sequences that one side decoded"""
-    from ezdxf.lldxf.encoding import decode_dxf_unicode, has_dxf_unicode
+    """the two snapshot lists differ only by `\\U+XXXX` sequences that one side decoded (long MTEXT content is chunked
+    differently then: string content tags are compared joined)"""
+    def norm_ent(sn):
+        typ, attribs, tags, subs = sn
+        na = tuple((k, _decoded(v) if isinstance(v, str) else v) for k, v in attribs)
+        if tags is None:
+            nt = None
+        else:
+            text = _decoded("".join(v for c, v in tags if isinstance(v, str) and c in (1, 3)))
+            nt = (text, tuple((c, _decoded(v) if isinstance(v, str) else v) for c, v in tags if not (isinstance(v, str) and c in (1, 3))))
+        return (typ, na, nt, tuple(norm_ent(x) for x in subs))
 
-    def norm(x):
-        if isinstance(x, str):
-            return decode_dxf_unicode(x) if has_dxf_unicode(x) else x
-        if isinstance(x, tuple):
-            return tuple(norm(y) for y in x)
-        return x
-
-    return norm(tuple(ref)) == norm(tuple(got)) and tuple(ref) != tuple(got)
+    if len(ref) != len(got):
+        return False
+    a, b = [norm_ent(x) for x in ref], [norm_ent(x) for x in got]
+    for x, y in zip(a, b):
+        if x[0] != y[0] or x[1] != y[1] or x[3] != y[3]:
+            return False
+        if x[2] is not None and y[2] is not None and x[2] != y[2]:
+            return False
+    return True
 
 
 def _last_group_lost(x, got) -> bool:
@@ -947,8 +1274,8 @@ def judge(fails, tag, writer, res, ref_name="readfile"):
                                   f"{tag}: single_pass_modelspace lost the last group of the ENTITIES section ({d[1]})"))
                     fails.append((f"iterdxf/falsy-entity-dropped/{falsy_type}", f"{tag}: {name} does not yield the empty {falsy_type}"))
                     continue
-        if name.startswith("recover") and _unicode_only(ref, got):
-            fails.append(("recover/dxf-unicode-decoded", f"{tag}: {name} decodes \\U+XXXX, {ref_name} keeps it: {d[1]}"))
+        if _unicode_only(ref, got):
+            fails.append(("recover/dxf-unicode-decoded", f"{tag}: {name} and {ref_name} differ only by \\U+XXXX escapes one of them decoded: {d[1]}"))
             continue
         fails.append((f"{writer}/{name}/{d[0]}", f"{tag}: {name} vs {ref_name}: {d[1]}"))
 
@@ -1037,11 +1364,17 @@ def _doc_case(args):
     finally:
         signal.alarm(0)
     tag = f"{vname}/{stats['enc']}/{mode}#{idx}"
-    base = os.path.join(tmp, f"d{os.getpid()}")
+    base = os.path.join(tmp, f"d{os.getpid()}-{idx}")
     try:
         fails += run_writers(doc, ver, tag, base, stats)
     except _Timeout:
         return stats, fails, replay, "watchdog-io"
+    finally:
+        for suffix in "acbepr":
+            try:
+                os.remove(f"{base}-{suffix}.dxf")
+            except OSError:
+                pass
     return stats, fails, replay, None
 
 
@@ -1074,7 +1407,9 @@ def run_writers(doc, ver, tag, base, stats):
     if not isinstance(ref, str):
         got = [e for e in ezdxf.readfile(pa).modelspace() if e.dxftype() in iterdxf.SUPPORTED_TYPES]
         d = source_diff(src, got, with_handle)
-        if d:
+        if d and d[0].endswith("dxf-unicode"):
+            fails.append(("recover/dxf-unicode-decoded", f"{tag}: source document vs readfile (escape not decoded): {d[1]}"))
+        elif d:
             fails.append((f"asc/source/{d[0]}", f"{tag}: source document vs readfile: {d[1]}"))
     # --- the same content with CRLF line ends (what saveas produces on Windows)
     pc = base + "-c.dxf"
@@ -1113,6 +1448,7 @@ def run_writers(doc, ver, tag, base, stats):
     pe = base + "-e.dxf"
     try:
         it = iterdxf.opendxf(pa)
+        ex = None
         try:
             ex = it.export(pe)
             n = 0
@@ -1122,6 +1458,8 @@ def run_writers(doc, ver, tag, base, stats):
             ex.close()
         finally:
             it.close()
+            if ex is not None and not ex.file.closed:
+                ex.file.close()     # a failed export must not flush into the file of a later document
         res_e = ascii_readers(pe, ver, with_handle)
         src_e = res["iterdxf.opendxf"]
         if not isinstance(src_e, str):
